@@ -4,7 +4,8 @@ import re
 from engine import absint
 from engine.absint import outcome_str
 from engine.rules import (MustPass, outcome, calls_to, root_fn, success_values, call_checked)
-from engine.sym import strip, strip_deep, render, walk, short
+from engine.rules import bool_atom, switch_bool_edges, derived_locals, switch_on_locals
+from engine.sym import strip, strip_deep, render, walk, short, unmut, Sym
 from props import common as K
 
 META = {
@@ -31,6 +32,272 @@ def _nogen(x):
         prev = x
         x = re.sub(r"(::)?<[^<>]*>", "", x)
     return x
+
+
+
+# ---------------------------------------------------------------------------------------------------------------
+# anchors: the functions the rules talk about are found by what they do / which types they handle; the private
+# names they had at review time are only the first guess
+
+def _field_of_type(f, adt, ty_rx, default):
+    """Name of the (single) field of `adt` whose type matches `ty_rx`; `default` if there is no such single field."""
+    a = f.adts.get(adt)
+    if a:
+        hits = [fl["name"] for v in a["variants"] for fl in v["fields"] if re.match(ty_rx, fl["ty"])]
+        if len(hits) == 1:
+            return hits[0]
+    return default
+
+
+def _server_private_fns(f):
+    return [n for n, r in f.fns.items() if n.startswith("rtr::server::") and not r.get("exported") and r.get("has_body")
+            and f.body(n) is not None]
+
+
+def _stores_field(b, field):
+    return [bi for bi, blk in enumerate(b.blocks) if not b.is_cleanup(bi) for st in blk["stmts"]
+            if st["s"] == "assign" and any(p[0] == "f" and p[1] == field for p in st["pl"]["p"])]
+
+
+def find_check_version(f, vf):
+    """The (non-async) function that remembers the client's version: it assigns the connection's Option<u8> field."""
+    if f.body(SRV + "check_version") is not None:
+        return SRV + "check_version"
+    c = [n for n in _server_private_fns(f) if not f.fns[n].get("async") and _stores_field(f.body(n), vf)
+         and any("rtr::pdu::Header" in i for i in f.fns[n].get("inputs", []))]
+    return c[0] if len(c) == 1 else None
+
+
+def find_check_length(f):
+    """The (non-async) function that compares the header's length field with an expected u32."""
+    if f.body(SRV + "check_length") is not None:
+        return SRV + "check_length"
+    c = [n for n in _server_private_fns(f) if not f.fns[n].get("async") and "u32" in f.fns[n].get("inputs", [])
+         and any(x.res == PDU + "Header::length" for x in f.body(n).calls())]
+    return c[0] if len(c) == 1 else None
+
+
+def find_dispatch(f):
+    """The coroutine that matches on a received Query with one arm per kind (the dispatch loop)."""
+    n = SRV + "run::{closure#0}"
+    if f.body(n) is not None:
+        return n
+    adt = f.adts.get("rtr::server::Query")
+    nv = len(adt["variants"]) if adt else 4
+    c = []
+    for n, b in f.bodies.items():
+        if not n.startswith("rtr::server::") or not b.is_coroutine:
+            continue
+        for blk in b.blocks:
+            t = blk["term"]
+            if t["t"] == "switch" and len(t["targets"]) >= nv - 1:
+                pl = t["discr"].get("m") or t["discr"].get("c")
+                if pl is None:
+                    continue
+                for d in b.defs().get(pl["l"], []):
+                    if d[2] == "assign" and d[3]["rv"]["r"] == "discr" and "rtr::server::Query" == b.local_ty(d[3]["rv"]["pl"]["l"]).lstrip("&").replace("mut ", ""):
+                        c.append(n)
+    c = sorted(set(c))
+    return c[0] if len(c) == 1 else None
+
+
+def find_recv(f, dispatch):
+    """The receive function: the async fn producing a Query that the dispatch loop awaits."""
+    n = SRV + "recv::{closure#0}"
+    if f.body(n) is not None:
+        return n
+    db = f.body(dispatch) if dispatch else None
+    if db is None:
+        return None
+    c = sorted({x.res for x in db.calls() if x.is_static and not db.is_cleanup(x.bb) and x.res in f.fns and f.fns[x.res].get("async")
+                and "rtr::server::Query" in (f.fns[x.res].get("output") or "") and f.body(x.res + "::{closure#0}") is not None})
+    return c[0] + "::{closure#0}" if len(c) == 1 else None
+
+
+# ---------------------------------------------------------------------------------------------------------------
+# constants: a named constant is its value, also when it is a field of a constant aggregate (`ErrorCode::X.0`)
+
+def const_agg(f, t, depth=0):
+    t = unmut(strip_deep(t))
+    if t[0] == "agg":
+        return t
+    if t[0] == "cdef" and depth < 4:
+        cb = f.body(t[1])
+        if cb is not None and not cb.arg_count:
+            return const_agg(f, Sym(cb).local(0), depth + 1)
+    return None
+
+
+def const_int(f, t, depth=0):
+    """Integer value of a term built from literals, named constants, fields of constant aggregates, newtype wrappers."""
+    if depth > 6:
+        return None
+    t = K.fold_consts(unmut(strip_deep(t)), f.consts)
+    if t[0] == "const" and isinstance(t[1], int) and not isinstance(t[1], bool):
+        return t[1]
+    if t[0] == "cast":
+        return const_int(f, t[1], depth + 1)
+    if t[0] == "field":
+        a = const_agg(f, t[1])
+        if a is not None:
+            for fn_, v in a[3]:
+                if str(fn_) == str(t[2]):
+                    return const_int(f, v, depth + 1)
+        return None
+    if t[0] in ("cdef", "agg"):
+        a = const_agg(f, t)
+        if a is not None and len(a[3]) == 1:
+            return const_int(f, a[3][0][1], depth + 1)
+    return None
+
+
+# ---------------------------------------------------------------------------------------------------------------
+# abstract interpreter for the header checks: aggregate constants are evaluated, an Error PDU is a structured value
+# (version, code, quoted PDU, text) however it ends up wrapped, stores of the negotiated version are recorded
+
+STORE = "«store version»"
+_PLAIN = ("int", "struct", "tuple", "variant", "unit", "bytes")
+
+
+def _plain(v, depth=0):
+    if v is None or depth > 6 or v.k not in _PLAIN:
+        return False
+    if v.k == "int":
+        return v.lin is not None and v.lin.is_const()
+    if v.k == "struct":
+        return all(_plain(x, depth + 1) for x in v.fields.values())
+    if v.k == "tuple":
+        return all(_plain(x, depth + 1) for x in v.fields)
+    if v.k == "variant":
+        return all(_plain(x, depth + 1) for x in (v.fields or {}).values())
+    return True
+
+
+class HeaderInterp(absint.Interp):
+    version_field = None
+
+    def operand(self, st, body, op):
+        k = op.get("k") if isinstance(op, dict) else None
+        if k and "cdef" in k:
+            c = self.facts.consts.get(k["cdef"])
+            if not (c and "v" in c):
+                cb = self.facts.body(k["cdef"])
+                if cb is not None and not cb.arg_count:
+                    try:
+                        sub = type(self)(self.facts)
+                        ps = sub.run_body(cb, [])
+                    except Exception:
+                        ps = []
+                    if len(ps) == 1 and ps[0].outcome[0] == "return" and _plain(ps[0].outcome[1]):
+                        return ps[0].outcome[1]
+        return super().operand(st, body, op)
+
+    def call(self, st, body, t, bb):
+        fn = t["func"]
+        k = fn.get("k") if isinstance(fn, dict) else None
+        if k and "fn" in k and t.get("target") is not None:
+            res = k.get("res") or k["fn"]
+            if res == PDU + "Error::new" and len(t["args"]) == 4:
+                args = [self.operand(st, body, a) for a in t["args"]]
+                st.effects.append((short(res), [absint.show(a) for a in args], body.where(bb)))
+                return [(st, absint.V("struct", adt=PDU + "Error",
+                                      fields={"version": args[0], "code": args[1], "header": args[2], "text": args[3]}))]
+            if self.version_field and k.get("name") in ("insert", "replace", "get_or_insert") and \
+                    (k.get("res_krate") or k.get("krate")) in ("core", "std") and len(t["args"]) == 2:
+                args = [self.operand(st, body, a) for a in t["args"]]
+                if args[0] is not None and args[0].k == "obj" and (args[0].path or "").endswith("." + self.version_field):
+                    val = absint.V("variant", adt="std::option::Option", vidx=1, vname="Some", fields={0: args[1]})
+                    st.effects.append((STORE, [absint.show(val)], body.where(bb), val))
+        return super().call(st, body, t, bb)
+
+    def write_place(self, st, body, pl, val):
+        nd = [p for p in pl["p"] if p[0] != "d"]
+        if self.version_field and len(nd) == 1 and nd[0][0] == "f" and nd[0][1] == self.version_field and val is not None:
+            st.effects.append((STORE, [absint.show(val)], "", val))
+            cur = self.read_local(st, body, pl["l"])
+            if cur is not None and (cur.k == "obj" or (cur.k == "struct" and isinstance(cur.fields, absint._ObjFields))):
+                self._write_back(st, body, pl, val)          # refine the one field, keep the rest of the object
+                return
+        return super().write_place(st, body, pl, val)
+
+
+def run_header_interp(f, fname, sym_names, version_field=None):
+    """All paths of a header check, private helpers of the server (error constructors, …) looked into."""
+    priv = set(_server_private_fns(f))
+    it = HeaderInterp(f, sym_names=sym_names, inline=lambda n: n in priv and not f.fns[n].get("async"))
+    it.version_field = version_field
+    try:
+        return it.run(fname), it, None
+    except absint.Unsupported as e:
+        return None, it, str(e)
+
+
+def _inside(v, pred, depth=0):
+    """All sub-values of an abstract value satisfying pred."""
+    if v is None or depth > 8:
+        return []
+    out = [v] if pred(v) else []
+    if v.k == "struct" and not (v.adt == PDU + "Error"):
+        for x in dict(v.fields).values():
+            out += _inside(x, pred, depth + 1)
+    elif v.k == "tuple":
+        for x in v.fields:
+            out += _inside(x, pred, depth + 1)
+    elif v.k == "variant":
+        for x in (v.fields or {}).values():
+            out += _inside(x, pred, depth + 1)
+    return out
+
+
+def _is_err(v):
+    return v.k == "struct" and v.adt == PDU + "Error"
+
+
+def _vint(v, depth=0):
+    if v is None or depth > 3:
+        return None
+    if v.k == "int" and v.lin is not None and v.lin.is_const():
+        return v.lin.c
+    if v.k == "struct" and not _is_err(v) and len(dict(v.fields)) == 1:
+        return _vint(list(dict(v.fields).values())[0], depth + 1)
+    return None
+
+
+def _vname(v, names):
+    """The quantity an abstract value stands for, in the vocabulary of the rule (`names`)."""
+    if v is None:
+        return None
+    if v.k == "obj":
+        return K.rename(v.path or "", names)
+    if v.k == "int" and v.lin is not None:
+        if v.lin.is_const():
+            return str(v.lin.c)
+        if v.lin.c == 0 and len(v.lin.t) == 1 and list(v.lin.t.values())[0] == 1:
+            return K.rename(list(v.lin.t)[0], names)
+    return None
+
+
+def accepts(p):
+    """The check lets the header through: a fully known value that carries no Error PDU (Ok(()), None, (), …)."""
+    if p.outcome[0] != "return":
+        return False
+    v = p.outcome[1]
+    return not _inside(v, _is_err) and not _inside(v, lambda x: x.k in ("obj", "top", "ref", "fn", "closure")) and \
+        not (v.k == "variant" and v.vname in ("Err", "Some"))
+
+
+def rejects(version, code, header, names):
+    """The check answers with exactly one Error PDU of the given version (int or quantity name), code and quoted header."""
+    def pred(p):
+        if p.outcome[0] != "return":
+            return False
+        es = _inside(p.outcome[1], _is_err)
+        if len(es) != 1:
+            return False
+        e = es[0].fields
+        vok = (_vint(e["version"]) == version) if isinstance(version, int) else (_vname(e["version"], names) == version)
+        return vok and _vint(e["code"]) == code and _vname(e["header"], names) == header
+    return pred
 
 
 def coroutine_of(f, ga_str):
